@@ -26,7 +26,7 @@ Definition cross_expand (A B : dfa) (lrel rrel : bool) (p : pst) : list (nat * p
               let ta := assoc c ra in
               let tb := assoc c rb in
               if (negb lrel && isnone ta) || (negb rrel && isnone tb) then [] else [(c, (ta, tb))])
-           (set_union (map fst ra) (map fst rb)).
+           (set_of (map fst ra ++ map fst rb)).
 
 Definition cross_fuel (A B : dfa) : nat := S (S (length (d_states A)) * S (length (d_states B))).
 
